@@ -546,6 +546,7 @@ def correspondence(ctx):
             if ndis >= 3:
                 break
     redefinition_stream(ctx, rng)
+    massless_stream(ctx, rng)
     cov = {}
     for f in (Fq.freq, S.remove_null_cols):
         al = tracer.all_lines(f)
@@ -618,6 +619,71 @@ def redefinition_stream(ctx, rng):
         if bad and ctx.violation('C06 fails on the implementation: ' + bad,
                                  dict(problem=describe_clean(p), edit=edit, sparse=sparse, num=num, kind='redefinition')):
             return True
+    return False
+
+
+def massless_stream(ctx, rng):
+    """(K, M) whose mass matrix has null rows / columns where the stiffness has none: in-plane inertia neglected on a panel whose in-plane and
+    out-of-plane amplitudes are coupled (unsymmetric laminate, curvature).  True eigenpairs of the pencil: the massless amplitudes follow
+    statically (condensation).  Sparse path: residual on the FULL matrices and lowest frequencies against the condensed reference.
+    Dense path: removes the massless amplitudes as if they were clamped - recorded finding C06-dense-clamps-massless-amplitudes."""
+    import importlib
+    Fq = importlib.import_module('compmech.analysis.freq')
+    for t_ in range(ctx.scale(3, 12)):
+        p = gen_panel_params(rng)
+        p['kind'] = 'panel'
+        p['model'] = ['cpanel_clt_donnell_bardell', 'plate_clt_donnell_bardell'][t_ % 2]
+        p['m'], p['nn'] = rng.randint(4, 5), rng.randint(4, 5)
+        pn = make_panel(p)
+        pn.stack = [0, 0, 90, 90] if t_ % 2 else [0, 90, -45, 45]          # unsymmetric: B != 0 couples u, v with w
+        pn.r = 2.
+        for f_ in 'uv':            # in-plane edges free except for the rigid-body restraints: the in-plane fields must not be switched off
+            for e_ in ('1t', '1r', '2t', '2r'):
+                for d_ in 'xy':
+                    setattr(pn, f_ + e_ + d_, 1.)
+        pn.u1tx = pn.v1tx = pn.v1ty = 0.
+        K = np.asarray(pn.calc_k0(silent=True).toarray())
+        M = np.asarray(pn.calc_kM(silent=True).toarray())
+        inpl = np.array([i for i in range(K.shape[0]) if i % 3 != 2])
+        M[inpl, :] = 0.
+        M[:, inpl] = 0.
+        act = np.array([i for i in range(K.shape[0]) if np.abs(K[i]).sum() != 0])
+        mass = np.array([i for i in act if np.abs(M[i]).sum() != 0])
+        less = np.array([i for i in act if np.abs(M[i]).sum() == 0])
+        if len(less) == 0 or len(mass) < 4:
+            continue
+        Kc = K[np.ix_(mass, mass)] - K[np.ix_(mass, less)] @ np.linalg.solve(K[np.ix_(less, less)], K[np.ix_(less, mass)])
+        wref = np.sqrt(np.abs(scipy.linalg.eigh(Kc, M[np.ix_(mass, mass)], eigvals_only=True)))
+        desc = dict(kind='massless', model=p['model'], m=p['m'], n=p['nn'], a=p['a'], b=p['b'], stack=list(pn.stack), massless='u, v amplitudes')
+        for sparse in (True, False):
+            ctx.evaluations += 1
+            try:
+                with np.errstate(all='ignore'):
+                    ev, evec = Fq.freq(csr_matrix(K), csr_matrix(M), sparse_solver=sparse, silent=True, num_eigvalues=4)
+            except Exception as ex:                                        # noqa
+                if 'Arpack' in type(ex).__name__:
+                    continue
+                bad = 'freq raised %s: %s' % (type(ex).__name__, str(ex)[:100])
+                ev = None
+            else:
+                ev = np.real(np.asarray(ev))
+                evec = np.asarray(evec)
+                bad = None
+                k_ = min(3, len(ev), evec.shape[1])
+                for i in range(k_):
+                    v = np.real(evec[:, i])
+                    res = np.abs(K @ v - ev[i] ** 2 * (M @ v)).max() / max(np.abs(K @ v).max(), 1e-300)
+                    if res > 1e-6:
+                        bad = ('pair %d is not an eigenpair of the pencil: K v != w^2 M v on the full matrices (backward error %.2e, w = %.6g; '
+                               'the condensed reference has %.6g)' % (i, res, ev[i], wref[i]))
+                        break
+                if bad is None and k_ and np.abs(ev[:k_] - wref[:k_]).max() > 1e-6 * wref[:k_].max():
+                    bad = 'lowest frequencies %r differ from those of the statically condensed pencil %r' % (ev[:k_].tolist(), wref[:k_].tolist())
+            if bad:
+                ident = 'C06-dense-clamps-massless-amplitudes' if not sparse else None
+                if ctx.violation('C06 fails on the implementation: [freq %s path, mass matrix with massless but stiff amplitudes] %s'
+                                 % ('sparse' if sparse else 'dense', bad), dict(problem=desc, sparse=sparse), identity=ident):
+                    return True
     return False
 
 
